@@ -30,6 +30,8 @@ def memcpy(E, st, d, s_, ln):
     if ln == 0: return
     so, soff = E.resolve_addr(st, s_, ln, False)
     do, doff = E.resolve_addr(st, d, ln, True)
+    if st.track is not None:
+        E.on_access(st, so, soff, ln, False); E.on_access(st, do, doff, ln, True)
     if None in so.b[soff:soff + ln]:
         # copying never-written bytes is fine (padding); they stay undefined but must be the *same* unknown
         so = st.wobj(so)
@@ -45,6 +47,7 @@ def memset(E, st, d, c, ln):
     ln = need_int(ln); d = need_int(d)
     if ln == 0: return
     do, doff = E.resolve_addr(st, d, ln, True)
+    if st.track is not None: E.on_access(st, do, doff, ln, True)
     do = st.wobj(do)
     if type(c) is int: c &= 255
     do.b[doff:doff + ln] = [c] * ln
@@ -260,7 +263,7 @@ def external_call(E, st, fr, n, rt, a):
     if n.startswith('_ZSt') and 'throw' in n:
         raise Violation('throw', 'libstdc++ ' + n + ' called')
     if n in ('__cxa_allocate_exception', '__cxa_throw'): raise Violation('throw', 'exception thrown')
-    if n == '__cxa_atexit': return 0
+    if n in ('__cxa_atexit', '__cxa_thread_atexit'): return 0
     if n == '__cpu_indicator_init': return None
     if n in ('_ZNSt8ios_base4InitC1Ev', '_ZNSt8ios_base4InitD1Ev'): return None
     if n == '__cxa_guard_acquire':
@@ -605,6 +608,49 @@ def verif_api(E, st, fr, n, a):
         except OverflowError: f = float('inf')
         if struct.unpack('<Q', struct.pack('<d', f))[0] != bits: raise Inconclusive('oracle self-check failed for ' + txt)
         return bits
+    if n == 'verif_oracle_ftoa':
+        import struct, re as _re
+        from decimal import Decimal
+        bits = need_int(a[0]); p_ = need_int(a[1]); ln = need_int(a[2])
+        txt = bytes(need_int(E.load_bytes(st, p_ + i, 1)) for i in range(ln)).decode('latin1')
+        if not _re.fullmatch(r'-?(0|[1-9][0-9]*)(\.[0-9]+)?([eE][-+]?[0-9]+)?', txt) or not ('.' in txt or 'e' in txt or 'E' in txt): return 1
+        if dec2double_bits(txt) != bits: return 2
+        d = struct.unpack('<d', struct.pack('<Q', bits))[0]
+        def norm(s_):
+            t = Decimal(s_).as_tuple(); digs = list(t.digits); e = t.exponent
+            while len(digs) > 1 and digs[-1] == 0: digs.pop(); e += 1
+            while len(digs) > 1 and digs[0] == 0: digs.pop(0)
+            return digs, e
+        mine, me = norm(txt); ref, re_ = norm(repr(d))       # python's repr is the shortest round-trip decimal, closest to the value
+        if d == 0.0: return 0
+        if len(mine) > len(ref): return 3
+        if len(mine) < len(ref): raise Inconclusive('oracle: shorter than python repr ' + txt)
+        if mine != ref or me != re_:
+            # same length, different digits: both read back; closer one must win
+            from fractions import Fraction
+            v = Fraction(d); x = Fraction(Decimal(txt)); y = Fraction(Decimal(repr(d)))
+            if abs(x - v) > abs(y - v): return 4
+        return 0
+    if n == 'verif_track_begin':
+        mode = need_int(a[0])
+        st.track = dict(mode=mode, epoch=set(b for b, o in st.objs.items() if o.kind in ('heap', 'global')), private=set(), ranges=[], locks=set())
+        return None
+    if n == 'verif_track_end':
+        if st.track is not None and st.track['locks']:
+            raise Violation('race', 'C17: tracked region ended with the allocator lock still held')
+        st.track = None; return None
+    if n == 'verif_track_private':
+        if st.track is not None:
+            o = st.find(need_int(a[0]))
+            if o is not None: st.track['private'].add(o.base)
+        return None
+    if n == 'verif_track_shared_range':
+        lo = need_int(a[0]); ln = need_int(a[1])
+        if st.track is None: st.track = dict(mode=0, epoch=set(), private=set(), ranges=[], locks=set())
+        st.track['ranges'].append((lo, lo + ln)); return None
+    if n == 'verif_track_mode':
+        if st.track is None: st.track = dict(mode=0, epoch=set(), private=set(), ranges=[], locks=set())
+        st.track['mode'] = need_int(a[0]); return None
     if n == 'verif_is_undef_dependent':
         x = a[0]
         if type(x) is int: return 0
